@@ -26,9 +26,9 @@ REQUIRED_FEATURES = ["encoding:enum", "encoding:int", "map:swap", "map:longer-na
 
 def plan(tier, seed):
     n = 16 if tier == "quick" else 48
-    per = 10 if tier == "quick" else 30
+    per = 10 if tier == "quick" else 90
     return [{"kind": "rename", "sub": i, "cases": per} for i in range(n)] + \
-           [{"kind": "many", "sub": i} for i in range(2 if tier == "quick" else 6)]
+           [{"kind": "many", "sub": i} for i in range(2 if tier == "quick" else 12)]
 
 
 def run(ctx, shard):
